@@ -204,8 +204,10 @@ class Run:
                (" states=%d transitions=%d" % (self.states, self.transitions)) if self.states is not None else "",
                len(printed), len(real), self.exhaustive, wall)
         )
-        for e in self.internal_errors:
-            print("INTERNAL-ERROR: %s" % e, file=sys.stderr)
+        for e in self.internal_errors[:5]:
+            print("INTERNAL-ERROR: %s" % e[:1500], file=sys.stderr)
+        if len(self.internal_errors) > 5:
+            print("INTERNAL-ERROR: ... and %d more" % (len(self.internal_errors) - 5), file=sys.stderr)
         if rc == 0 and self.internal_errors:
             rc = 2
         return rc
